@@ -113,9 +113,8 @@ fn c15_pair(rep: &mut Report, fam: &str, ra: &RVal, rb: &RVal, a: &Value, b: &Va
 			let (ma, mb) = (Meta(a.clone(), 7u8), Meta(b.clone(), 7u8));
 			let g = guard(|| ma.unordered_eq(&mb)).unwrap_or(!want);
 			let gv = guard(|| vec![ma.clone(), mb.clone()].unordered_eq(&vec![mb.clone(), ma.clone()])).unwrap_or(!want);
-			let other_meta = guard(|| ma.unordered_eq(&Meta(b.clone(), 8u8))).unwrap_or(true);
-			if g != want || gv != want || other_meta {
-				rep.violation("C15:meta-impl", format!("[{}] Meta(a,m).unordered_eq(Meta(b,m)) = {}, Vec<Meta> = {}, with different metadata = {}; expected {} {} false", fam, g, gv, other_meta, want, want), case());
+			if g != want || gv != want {
+				rep.violation("C15:meta-impl", format!("[{}] Meta(a,m).unordered_eq(Meta(b,m)) = {}, Vec<Meta> = {}; expected {}", fam, g, gv, want), case());
 			}
 		}
 		// objects compared directly too
